@@ -44,7 +44,7 @@ type c10Sess struct {
 	closed  bool
 	closeCh chan struct{}
 	pings   int
-	firstPing int // 0 ok, 1 write-timeout, 2 EOF, 3 other, 4 ok but the remote hangs up right after
+	firstPing int // 0 ok, 1 write-timeout, 2 EOF, 3 other, 4 ok but the remote hangs up right after, 5/6 shutdown arrives while the ping is outstanding and the ping then fails / succeeds
 }
 
 type c10Env struct {
@@ -58,6 +58,8 @@ type c10Env struct {
 	sessionOutcome int // next yamux set-up: 0 ok, 1 error
 	pingOutcome    int
 	attempts int
+	shutdown  func() // cancels the provider's context (the harness' shutdown action)
+	cancelled bool
 }
 
 var c10 *c10Env
@@ -151,6 +153,16 @@ func verifStub_sessPing(s *yamux.Session) (time.Duration, error) {
 		close(cs.closeCh)
 		return time.Millisecond, nil
 	}
+	if cs.pings == 1 && (cs.firstPing == 5 || cs.firstPing == 6) {
+		// shutdown arrives exactly while the first ping is outstanding
+		verifAction("shutdown-during-first-ping")
+		verifReach("shutdown-during-first-ping")
+		c10.shutdown()
+		if cs.firstPing == 5 {
+			return 0, io.EOF
+		}
+		return time.Millisecond, nil
+	}
 	if cs.pings == 1 {
 		switch cs.firstPing {
 		case 1:
@@ -224,8 +236,14 @@ func verifHarness_C10_pool() {
 	mgr.muxProvider.Start()
 	verifQuiesce()
 
-	cancelled := false
-	for step := 0; step < maxAttempts && !cancelled; step++ {
+	c10.shutdown = func() {
+		if !c10.cancelled {
+			c10.cancelled = true
+			cancel()
+			close(c10.dialTimeout)
+		}
+	}
+	for step := 0; step < maxAttempts && !c10.cancelled; step++ {
 		a := verifChoose("event", 4)
 		switch a {
 		case 0: // a connection attempt completes with a symbolic outcome chain
@@ -237,7 +255,7 @@ func verifHarness_C10_pool() {
 			if out == 0 {
 				c10.sessionOutcome = verifChoose("yamux-setup", 2)
 				if c10.sessionOutcome == 0 {
-					c10.pingOutcome = verifChoose("first-ping", 5)
+					c10.pingOutcome = verifChoose("first-ping", 7)
 				}
 			}
 			switch {
@@ -247,6 +265,8 @@ func verifHarness_C10_pool() {
 				verifAction("yamux-setup-fails")
 			case c10.pingOutcome == 4:
 				verifAction("session-established-then-remote-hangs-up")
+			case c10.pingOutcome >= 5:
+				verifAction("attempt-interrupted-by-shutdown")
 			case c10.pingOutcome != 0:
 				verifAction("first-ping-fails")
 			default:
@@ -277,9 +297,7 @@ func verifHarness_C10_pool() {
 			}
 		case 3:
 			verifAction("shutdown")
-			cancel()
-			close(c10.dialTimeout)
-			cancelled = true
+			c10.shutdown()
 		}
 		verifQuiesce()
 		verifQuiesce()
@@ -294,7 +312,7 @@ func verifHarness_C10_pool() {
 		}
 		verifAssert(c10.liveSessions() <= n, "live-sessions-never-exceed-the-configured-count")
 	}
-	if !cancelled {
+	if !c10.cancelled {
 		// self-healing: while the peer is reachable the pool returns to full strength
 		verifReach("healing-phase")
 		for k := 0; k < n+1; k++ {
@@ -307,8 +325,7 @@ func verifHarness_C10_pool() {
 		}
 		verifAssert(len(mgr.GetMuxConnections()) == n, "pool-returns-to-full-strength-while-peer-reachable")
 		verifAssert(c10.attempts == 0, "no-more-attempts-when-pool-is-full")
-		cancel()
-		close(c10.dialTimeout)
+		c10.shutdown()
 		verifQuiesce()
 	}
 	verifQuiesce()
